@@ -325,14 +325,17 @@ Leaves(ty) ==
                       Mk("IntPos", "3", <<>>, "INT"), Mk("IntNeg", "3", <<>>, "INT"),
                       Mk("Complex", "", <<Mk("FloatPos", "1.5", <<>>, "REAL"), Mk("FloatNeg", "2.5", <<>>, "REAL")>>, "SCALAR")}
   ELSE IF ty = "int" THEN {Sym("i", "INT"), Mk("IntPos", "3", <<>>, "INT"), Mk("IntNeg", "3", <<>>, "INT")}
+  ELSE IF ty = "bsym" THEN {Sym("b", "BOOL"), Sym("c", "BOOL")}     \* truth-valued symbols (the only truth values lnodes
+                                                                    \* accepts as the branches of a conditional)
   ELSE {}
 
-Filler(ty) == CASE ty = "num" -> Sym("y", "REAL") [] ty = "int" -> Sym("j", "INT")
+Filler(ty) == CASE ty = "num" -> Sym("y", "REAL") [] ty = "int" -> Sym("j", "INT") [] ty = "bsym" -> Sym("b", "BOOL")
                 [] OTHER -> Mk("LT", "", <<Sym("p", "REAL"), Sym("q", "REAL")>>, "BOOL")
 
 \* operator shapes: kind, s, operand types, result dtype; "T" stands for the (num|int) type being built
 Shapes(ty) ==
-  IF ty \in {"num", "int"} THEN
+  IF ty = "bsym" THEN {}
+  ELSE IF ty \in {"num", "int"} THEN
     {[k |-> "Neg", s |-> "", args |-> <<ty>>], [k |-> "Add", s |-> "", args |-> <<ty, ty>>],
      [k |-> "Sub", s |-> "", args |-> <<ty, ty>>], [k |-> "Mul", s |-> "", args |-> <<ty, ty>>],
      [k |-> "Div", s |-> "", args |-> <<ty, ty>>], [k |-> "Sum", s |-> "", args |-> <<ty, ty>>],
@@ -349,6 +352,8 @@ Shapes(ty) ==
     \* lnodes' typing (merge_dtypes) also admits equality between two truth values: a comparison, a negation or a
     \* connective as an operand of == / != (Python chains comparisons and binds `not` loosest)
     \cup {[k |-> c, s |-> "", args |-> <<"bool", "bool">>] : c \in {"EQ", "NE"}}
+    \* a selection between two truth-valued symbols: a conditional that can stand in the condition slot of another one
+    \cup {[k |-> "Conditional", s |-> "", args |-> <<"bool", "bsym", "bsym">>]}
 
 DOf(sh, ty) == IF ty = "bool" THEN "BOOL" ELSE IF ty = "int" THEN "INT" ELSE "REAL"
 
@@ -361,6 +366,7 @@ Types == {"num", "int", "bool"}
 \* (the only operator the printer glues to its operand's text)
 OnFillers(sh, ty) == Mk(sh.k, sh.s, [j \in 1..Len(sh.args) |-> Filler(sh.args[j])], DOf(sh, ty))
 Reps1(ty) ==
+  IF ty = "bsym" THEN Leaves("bsym") ELSE
   {OnFillers(sh, ty) : sh \in Shapes(ty)}
   \cup (IF ty = "bool" THEN {} ELSE {Mk("Neg", "", <<l>>, l.d) : l \in Leaves(ty)})
 
